@@ -9,7 +9,7 @@ FIX_COMMITS = ["3d29a15d", "ccb20ab7", "6a4c8968", "8f04a981", "afa8cd74", "2d15
 CHECKS = {
  "C11": ("E", "exploration",
          "bounded-exhaustive enumeration of integer values and atoms against a reference codec",
-         "Every encoder/decoder site is run on every u64 length-class boundary +-2, the dense range [0,2^27) (quick) / [0,2^32) (thorough), every boundary of i8..i128/u8..u128 and all 12.2M atoms of length <= 10 over {00,01,7f,80,ff}; the oracle is the harness's own minimal two's-complement codec. Exhaustive inside those sets; values above 2^32 away from boundaries are not covered.",
+         "Every encoder/decoder site is run on every u64 length-class boundary +-2, the dense range [0,2^27) (quick) / [0,2^32) (thorough), 45 boundary integers through an encoder keeping the trait's default integer routines, every boundary of i8..i128/u8..u128 and all 12.2M atoms of length <= 10 over {00,01,7f,80,ff}; the oracle is the harness's own minimal two's-complement codec. Exhaustive inside those sets; values above 2^32 away from boundaries are not covered.",
          "trusts: harness codec mc::sx::enc_*; sha2 crate; clvmr's Allocator for holding atoms",
          "DESIGN.md#c11"),
  "C18": ("H", "model_checking",
@@ -29,7 +29,7 @@ CHECKS = {
          "DESIGN.md#c01"),
  "C03": ("E", "exploration",
          "bounded-exhaustive enumeration of lock/birth condition multisets x chain-state grid against per-assertion arithmetic semantics",
-         "Every multiset of <=3 (quick) / <=4 (thorough) conditions over the 10 lock/birth kinds x 8 argument atoms (negative, 0, 1, 2, 2^32-1, 2^32, 2^64-1, 2^64) on one coin is parsed by the real parse_spends (both visitors), converted to owned conditions and checked by the real check_time_locks(nowrap) on all 576 chain states of a boundary grid; the verdict must equal the conjunction of the original assertions evaluated literally in u128 with saturation. Bundles rejected at parse time must contain an assertion that can never hold or be unsatisfiable as a conjunction (decided exactly per dimension); every multiset of <=2 on an ephemeral coin must be rejected iff it contains a relative/birth condition (tautological forms included); two independent coins with one assertion each (all 6400 ordered pairs) are checked against each coin's own record.",
+         "Every multiset of <=3 (quick) / <=4 (thorough) conditions over the 10 lock/birth kinds x 8 argument atoms (negative, 0, 1, 2, 2^32-1, 2^32, 2^64-1, 2^64) on one coin is parsed by the real parse_spends (both visitors), converted to owned conditions and checked by the real check_time_locks(nowrap) on all 576 chain states of a boundary grid; the verdict must equal the conjunction of the original assertions evaluated literally in u128 with saturation. Bundles rejected at parse time must contain an assertion that can never hold or be unsatisfiable as a conjunction (decided exactly per dimension); every multiset of <=2 on an ephemeral coin (its spend listed after and before the creating spend) must be rejected iff it contains a relative/birth condition (tautological forms included); two independent coins with one assertion each (all 6400 ordered pairs) are checked against each coin's own record.",
          "trusts: the per-assertion definitions in c03.rs (after: now >= bound, before: now < bound, birth: equality, relative bound = min(confirmed+arg, max)); locks spread over several spends and the legacy wrapping mode are not covered",
          "DESIGN.md#c03"),
  "C04": ("E", "exploration",
@@ -49,7 +49,7 @@ CHECKS = {
          "DESIGN.md#c06"),
  "C16": ("E", "exploration",
          "bounded-exhaustive input enumeration against an independent big-integer model of BLS12-381 plus two-route (secret vs public) agreement",
-         "For 40 (quick) / 72 (thorough) keys incl. boundary scalars 0,1,2,3,r-1,r-2,(r+-1)/2, every unhardened path of length <=2/<=3 over 6 boundary indices, every ordered key pair, up to 16 hidden puzzle hashes, 6 messages and ~137k (quick) / ~360k (thorough) systematically perturbed 48/96-byte strings (every single-byte substitution of valid encodings, all flag combinations, non-reduced coordinates, non-canonical infinities, small-x on-curve non-subgroup points) plus 105k secret-key and mod-r strings: the real parsers accept exactly what the harness's own num-bigint model says (canonical encoding, on curve, r*P=O, infinity allowed), unchecked parsing accepts a superset and re-encodes identically, and both derivation routes agree with each other and with reference values.",
+         "For 40 (quick) / 72 (thorough) keys incl. boundary scalars 0,1,2,3,r-1,r-2,(r+-1)/2, every unhardened path of length <=2/<=3 over 6 boundary indices, every ordered key pair (addition, subtraction and negation laws incl. an identity left-hand side), up to 16 hidden puzzle hashes, 6 messages and ~137k (quick) / ~360k (thorough) systematically perturbed 48/96-byte strings (every single-byte substitution of valid encodings, all flag combinations, non-reduced coordinates, non-canonical infinities, small-x on-curve non-subgroup points) plus 105k secret-key and mod-r strings: the real parsers accept exactly what the harness's own num-bigint model says (canonical encoding, on curve, r*P=O, infinity allowed), unchecked parsing accepts a superset and re-encodes identically, and both derivation routes agree with each other and with reference values.",
          "trusts: harness reference arithmetic (Fp/Fp2, Jacobian double-and-add, ZCash compressed format) re-validated at start-up on the blspy vectors quoted in the repo's unit tests; sha2 crate; blst scalar multiplication only as a cross-check",
          "DESIGN.md#c16"),
  "C17": ("H", "model_checking",
@@ -64,7 +64,7 @@ CHECKS = {
          "DESIGN.md#c07"),
  "C08": ("E", "exploration",
          "bounded-exhaustive differential enumeration of spend bundles through the mempool path and four block-generator constructions",
-         "Every bundle of the stated alphabet (one spend x 23 amounts covering every encoding length class x 4 puzzle kinds x <=1 of ~108 interaction letters, a wrong-declared-hash letter per amount, every ordered pair of letters on the identity puzzle, two spends sharing the puzzle reveal with <=1 letter each, an ephemeral chain, and three really signed bundles through each builder with the middle one declined after serialisation, validated with signature checking) under the 8 combinations of MEMPOOL_MODE, COST_CONDITIONS, INTERNED_GENERATOR is run through run_spendbundle and through run_block_generator2 on solution_generator, solution_generator_backrefs, BlockBuilder and InternedBlockBuilder output: same verdict, same conditions (mempool-only flags masked), equal condition cost, execution cost + 20, plain-generator cost - direct cost = 20 + 2*cost_per_byte (20 under INTERNED_GENERATOR), solution_generator bytes = harness rendering and calculate_generator_length = actual length.",
+         "Every bundle of the stated alphabet (one spend x 23 amounts covering every encoding length class x 4 puzzle kinds x <=1 of ~108 interaction letters, a wrong-declared-hash letter per amount, two spends where the second claims the hash the first has just proven but reveals another puzzle, every ordered pair of letters on the identity puzzle, two spends sharing the puzzle reveal with <=1 letter each, an ephemeral chain, and three really signed bundles through each builder with the middle one declined after serialisation, validated with signature checking) under the 8 combinations of MEMPOOL_MODE, COST_CONDITIONS, INTERNED_GENERATOR (each mempool combination also with COMPUTE_FINGERPRINT) is run through run_spendbundle and through run_block_generator2 on solution_generator, solution_generator_backrefs, BlockBuilder and InternedBlockBuilder output: same verdict, same conditions (mempool-only flags masked), equal condition cost, execution cost + 20, plain-generator cost - direct cost = 20 + 2*cost_per_byte (20 under INTERNED_GENERATOR), solution_generator bytes = harness rendering and calculate_generator_length = actual length.",
          "trusts: harness generator rendering (mc::genr) and serialiser; puzzle reveals are the canonical plain serialisation (the property's precondition)",
          "DESIGN.md#c08"),
  "C13": ("E", "exploration",
